@@ -19,6 +19,8 @@ Tables (input flags -> output):
   exemptRows (sessOpt, forUpdate) -> the UPDATE carries the criterion of a read attribute   [_save_updated_]
   sessRows  (sessOpt, forUpdate, wrote+flushed) -> (immediate, in_transaction, in for_update, len(query_results)) before / after commit()
                                      [SessionCache.__init__, prepare_connection_for_query_execution, flush, commit]
+  optRows   (immediate, ddl, serializable, optimistic) -> (db_session.immediate, db_session.optimistic), decorator = context manager
+                                     [DBSessionContextManager.__init__]
   markRowsT (w, vol, rOther)      -> (rbit of a, rbit of another attribute) after `_set_rbits((obj,), {a})`   [EntityMeta._set_rbits]
 The introspection runs in a subprocess with PYTHONPATH=<repo>.
 """
@@ -44,7 +46,7 @@ def introspect():
     with db_session:
         db.execute("insert into P (id, z, p, q, fl, fo, io) values (1, 1, 3, 3, 1.5, 1.5, 3)")
         db.execute("insert into P (id, z, p, q, fl, fo, io) values (2, 1, NULL, NULL, 1.5, 1.5, 3)")
-    out = {'get': [], 'set': [], 'dbset': [], 'save': [], 'crit': [], 'exempt': [], 'mark': [], 'sess': [], 'errors': []}
+    out = {'get': [], 'set': [], 'dbset': [], 'save': [], 'crit': [], 'exempt': [], 'mark': [], 'sess': [], 'opts': [], 'errors': []}
 
     def bit(a): return P._bits_[a]
 
@@ -155,6 +157,30 @@ def introspect():
                     rollback()
         with db_session(optimistic=so):
             db.execute("update P set z = 1 where id = 1")
+    # the options of db_session, every combination, as context manager and as decorator: the flags the session runs with
+    from pony.orm import core as _core
+    for imm in B:
+        for ddl in B:
+            for ser in B:
+                for opt in B:
+                    kw = dict(immediate=imm, ddl=ddl, serializable=ser, optimistic=opt)
+                    m = db_session(**kw)
+                    seen = {}
+                    def body():
+                        ds = _core.local.db_session
+                        seen['f'] = [bool(ds.immediate), bool(ds.optimistic)]
+                    try: db_session(**kw)(body)()          # decorator form
+                    except Exception as e: out['errors'].append('decorated db_session(%r) raised %s' % (kw, type(e).__name__))
+                    try:
+                        with db_session(**kw):                # context-manager form
+                            ds = _core.local.db_session
+                            cm = [bool(ds.immediate), bool(ds.optimistic)]
+                    except Exception as e:
+                        out['errors'].append('with db_session(%r) raised %s' % (kw, type(e).__name__)); cm = None
+                    flags = [bool(m.immediate), bool(m.optimistic)]
+                    if seen.get('f') != flags or cm != flags:
+                        out['errors'].append('db_session(%r): decorator / context manager / constructor flags differ: %r %r %r' % (kw, seen.get('f'), cm, flags))
+                    out['opts'].append([[imm, ddl, ser, opt], flags])
     return out
 
 
@@ -182,6 +208,8 @@ def render(f):
     L.append('def markRowsT : List ((Bool × Bool × Bool) × (Bool × Bool)) := [' + ', '.join('((%s, %s, %s), (%s, %s))' % (lb(k[0]), lb(k[1]), lb(k[2]), lb(v[0]), lb(v[1])) for k, v in f['mark']) + ']')
     L.append('/-- (db_session optimistic, get_for_update, assign + flush) ↦ (immediate, in_transaction, object in for_update, len(query_results)) before and after commit() -/')
     L.append('def sessRows : List ((Bool × Bool × Bool) × (Bool × Bool × Bool × Nat) × (Bool × Bool × Bool × Nat)) := [' + ', '.join('((%s, %s, %s), (%s, %s, %s, %d), (%s, %s, %s, %d))' % (lb(k[0]), lb(k[1]), lb(k[2]), lb(v[0]), lb(v[1]), lb(v[2]), v[3], lb(v[4]), lb(v[5]), lb(v[6]), v[7]) for k, v in f['sess']) + ']')
+    L.append('/-- db_session(immediate, ddl, serializable, optimistic) ↦ (db_session.immediate, db_session.optimistic); same for the decorator and the context-manager form -/')
+    L.append('def optRows : List ((Bool × Bool × Bool × Bool) × (Bool × Bool)) := [' + ', '.join('((%s, %s, %s, %s), (%s, %s))' % (lb(k[0]), lb(k[1]), lb(k[2]), lb(k[3]), lb(v[0]), lb(v[1])) for k, v in f['opts']) + ']')
     L += ['', 'end PonyVerif.Gen.OccTable', '']
     return '\n'.join(L)
 
